@@ -842,8 +842,13 @@ func (ctx Ctx) selectExpr(e *ast.SelectorExpr) coq.Expr {
 	// Check if the select expression is actually referring to a function object
 	// If it is, we need to translate to 'StructName__FuncName varName' instead
 	// of a struct access
-	_, isFuncType := (ctx.typeOf(e)).(*types.Signature)
+	sig, isFuncType := (ctx.typeOf(e)).(*types.Signature)
 	if isFuncType {
+		if sig.Params().Len() == 0 {
+			// T__m x is already the call of a method without parameters,
+			// not a function value
+			ctx.unsupported(e, "method value of a method without parameters")
+		}
 		m := coq.MethodName(structInfo.name, e.Sel.Name)
 		ctx.dep.addDep(m)
 		return coq.NewCallExpr(coq.GallinaIdent(m), ctx.expr(e.X))
